@@ -15,7 +15,7 @@ CLASS_ATOM = {'field': 1, 'array_data': 2, 'array_meta': 3, 'xml': 4, 'errors': 
               'structure': 8, 'tricache': 20, 'imgcache': 21, 'fresh': 22, 'newprivate': 23}
 KIND_ATOM = {'scene_objects': 1, 'node_objects': 2, 'shapes': 3, 'polygon_triangles': 4, 'bound_triangleset': 5,
              'bound_item': 6, 'triangleset': 7, 'unbound_item': 8, 'input_list': 9, 'prim_props': 10, 'index_lib': 11,
-             'print': 12, 'image_data': 13, 'source_item': 14, 'effect_eq': 15, 'partial_iter': 16, 'save': 30, 'own': 31}
+             'print': 12, 'image_data': 13, 'source_item': 14, 'effect_eq': 15, 'partial_iter': 16, 'save': 30, 'own': 31, 'edit': 32}
 
 FILES = ['cube_tristrips.dae', 'duck_polylist.dae', 'duck_triangles.dae', 'duck.zip', 'empty_triangles.dae',
          'empty_triangles_with_multiple_ns.dae', 'trifans.dae', 'tristrips.dae', 'wam.dae', 'wam.zae']
@@ -177,7 +177,10 @@ def gen_query(rng):
     if k in ('input_list', 'prim_props'):
         return [k, a, b]
     if k == 'index_lib':
-        return [k, rng.choice(LIBS), a]
+        ids = ['geom0', 'geom1', 'effect0', 'material0', 'scene0', 'node1', 'cam0', 'light0', 'img0', 'renamed-0', 'renamed-1',
+               'no-such-id', 'absent', 'VisualSceneNode', 'LOD3spShape-lib', 'mesh0', 'skin0']
+        keys = [[rng.choice(['get', 'in', 'item']), rng.choice(ids)] for _ in range(rng.choice([0, 2, 4, 6]))]
+        return [k, rng.choice(LIBS), a, keys]
     if k == 'image_data':
         return [k, a]
     if k == 'effect_eq':
@@ -192,7 +195,9 @@ def gen_ops(rng, n):
         r = rng.random()
         if r < 0.12:
             ops.append(['save'])
-        elif r < 0.22:
+        elif r < 0.18:
+            ops.append(['edit', 'rename', rng.choice(LIBS[:1] + LIBS), rng.randint(0, 3), 'renamed-%d' % rng.randint(0, 1)])
+        elif r < 0.27:
             ops.append(['own', rng.randint(0, 5), rng.randint(0, 5)])
         elif r < 0.55:
             ops.append(rng.choice(pool))          # multiplicity: the same query again, later
@@ -319,6 +324,10 @@ def fixed_cases():
             ['triangleset', 0, 0, 3], ['effect_eq', 0, 1], ['node_objects', 'geometry', 0, None], ['save'],
             ['shapes', 0, 0, 50], ['print']]
     ops += [['index_lib', l, 0] for l in LIBS]
+    ops += [['edit', 'rename', 'geometries', 0, 'renamed-0'], ['index_lib', 'geometries', 0, [['get', 'renamed-0'], ['in', 'renamed-0']]],
+            ['index_lib', 'geometries', 0, [['get', 'absent'], ['item', 'absent']]],
+            ['index_lib', 'geometries', 0, [['get', 'renamed-0'], ['in', 'renamed-0']]], ['save'],
+            ['index_lib', 'geometries', 0, [['get', 'renamed-0'], ['item', 'mesh0'], ['in', 'absent']]]]
     cases = [{'doc': {'kind': 'file', 'file': f, 'ignore': True}, 'ops': ops} for f in FILES]
     cases.append({'doc': {'kind': 'xml', 'xml': SKIN_XML, 'ignore': False}, 'ops': ops})
     return cases
